@@ -59,7 +59,7 @@ def main():
         cs, files = checks_for(p, always)
         name = os.path.basename(os.path.dirname(p)) + "/" + os.path.basename(p)
         env = dict(os.environ, KEEP_REPLAYS=os.path.join(keep, name.replace("/", "_")))
-        pr = subprocess.run([os.path.join(HERE, "mutant_iso.sh"), p] + cs, env=env,
+        pr = subprocess.run([os.path.join(HERE, "mutant_iso.sh"), p] + cs, env=env, stdin=subprocess.DEVNULL,
                             stdout=subprocess.PIPE, stderr=subprocess.STDOUT, text=True)
         lines = [l for l in pr.stdout.splitlines() if l.startswith("ISO-RESULT")]
         with open(results, "a") as f:
